@@ -24,7 +24,7 @@ Proof. exact bb_consts_ok. Qed.
 Print Assumptions C11_blackbox_consts_ok.
 
 (* The reclaim loop of qb_rb_chunk_alloc terminates within the model's fuel (chunks <= used/2 < word_size) and does
-   what the abstract writer does - drop oldest chunks until the reservation is admitted, EINVAL if even the empty
+   what the abstract writer does - drop oldest chunks until the reservation is accepted, EINVAL if even the empty
    ring is too small; hence for EVERY operation list over write / alloc+commit / read / peek / reclaim / query / dump
    on an overwrite ring, with or without the notifier, the ring's return values and delivered bytes are those of the
    abstract overwrite queue, the invariant is preserved and OutOfFuel never appears. *)
@@ -35,7 +35,7 @@ Theorem C11_reclaim_loop_terminates_and_refines : forall ops b s, Inv b s -> ovw
 Proof. exact ow_run_refines. Qed.
 Print Assumptions C11_reclaim_loop_terminates_and_refines.
 
-(* One write of at most the requested size: it is admitted after dropping oldest chunks, and only chunks that had
+(* One write of at most the requested size: it is accepted after dropping oldest chunks, and only chunks that had
    to go are dropped - every run of newest chunks that fits together with the new reservation survives. *)
 Theorem C11_write_drops_only_what_it_must : forall W S pend q rlen d,
   S + RB_CHUNK_MARGIN + RB_SIZE_EXTRA <= 4 * W -> rlen <= S -> Keeps S pend q ->
@@ -155,6 +155,19 @@ Theorem C11_blackbox_dump_decodes : forall S maxline n R calls, size_ok S -> For
     map bb_decode (bb_dump b n) = map (fun c => Some (lc_rec maxline c)) kept.
 Proof. exact bb_dump_decodes. Qed.
 Print Assumptions C11_blackbox_dump_decodes.
+
+(* "a dump taken at any moment": whatever is logged before (pre) and whatever happens afterwards (post, any mix of log
+   calls and dumps), the dump taken in between holds the records of an unbroken run of the latest calls of pre, ending
+   with the very last one *)
+Theorem C11_blackbox_dump_at_any_moment : forall S maxline n R pre post, size_ok S -> Forall (call_ok S maxline n) pre ->
+  Forall (fun c => bb_reserve maxline (r_fn (lc_hdr c)) <= R) pre ->
+  exists kept,
+    suffix kept pre /\ (pre <> [] -> kept <> []) /\
+    (forall l, suffix l pre -> Z.of_nat (length l) * (R + 16) <= S -> suffix l kept) /\
+    nth (length pre) (snd (bb_run (bb_open S) (map (lc_op maxline) pre ++ BDump n :: post))) BoClosed =
+    BoDump (map (fun c => bb_encode (lc_rec maxline c)) kept).
+Proof. exact bb_dump_at_any_moment. Qed.
+Print Assumptions C11_blackbox_dump_at_any_moment.
 
 (* The dump file word by word: qb_rb_create_from_file applied to the words qb_rb_write_to_file produced (header
    hash and version checked, the data words loaded into a fresh NO_SEMAPHORE ring of the same word_size) yields a
